@@ -422,5 +422,5 @@ pub fn property(tier: Tier) -> Property {
         case_timeout_s: tier.pick(120, 600),
         exhaustive: false,
     }));
-    Property { id: "C14", stages, assumptions: vec!["only model-valid unions and rules are generated for the constant analysis (merge asserts agreement)".into()] }
+    Property { id: "C14", scale: tier.pick(5, 2), stages, assumptions: vec!["only model-valid unions and rules are generated for the constant analysis (merge asserts agreement)".into()] }
 }
